@@ -83,6 +83,17 @@ class Impl:
         extra = ""
         if [id(e) for e in st.reservations_get] != [id(e) for e in st.reserved_events]:
             extra = "|reserved_events!=reservations_get:" + self.ids(st.reserved_events)
+        if self.kind == "filter" and st.reserve_get_queue and self.env.peek() > self.env.now \
+                and len(st.reservations_get) < len(its):
+            # the instant is over (the store's own maturity timer, due now at the latest, has run): the request that is
+            # next in line is still waiting although an unreserved item satisfies its filter -- read by the oracle
+            # (C04), not part of the model's state
+            head = st.reserve_get_queue[0]
+            try:
+                if any(head.filter(x) for x in its[len(st.reserved_events):]):
+                    extra += "|stuck-get"
+            except Exception:  # noqa
+                pass
         pt = ",".join(str(int(x.put_time)) if isinstance(x, It) and x.put_time is not None else "0" for x in its)
         return "|".join([",".join(str(item_id(x)) for x in its), self.ids(st.reserve_put_queue),
                          self.ids(st.reservations_put), self.ids(st.reserve_get_queue),
